@@ -22,10 +22,98 @@ def load_all(repo):
     return prog, cs
 
 
+def owned_scan(prog, cs):
+    """static ownership check for `//@ owned P.. : T.f .. by F ..` declarations: outside the listed functions an owned field may only be
+    loaded; stores, address escapes and whole-struct stores of the enclosing type are refused.  One obligation per field."""
+    from ir import short
+    out = {'fn': '@owned', 'status': 'ok', 'obls': {}, 'assumptions': [], 'inlined': [], 'paths': 0, 'gen_s': 0, 'solve_s': 0, 'error': None}
+    def regs(x, acc):
+        if isinstance(x, dict):
+            if x.get('k') == 'reg': acc.append(x['name'])
+            else:
+                for v in x.values(): regs(v, acc)
+        elif isinstance(x, list):
+            for v in x: regs(v, acc)
+        return acc
+    allbad = []
+    for props, fields, funcs, src in cs.owned:
+        fset = set(fields); tset = set(f.rsplit('.', 1)[0] for f in fields)
+        bad = {f: [] for f in fields}; allbad.append(bad)
+        for name, fn in prog.funcs.items():
+            sn = ir_short(prog, name)
+            if sn in funcs or not fn.blocks: continue
+            ins_all = [i for b in fn.blocks for i in b['instrs']]
+            owned_regs = {}
+            for i in ins_all:
+                if i['op'] == 'FieldAddr':
+                    tf = short(i['struct']).split('.')[-1] + '.' + i['field']
+                    if tf in fset: owned_regs[i['name']] = tf
+            for i in ins_all:
+                if i['op'] == 'Store':
+                    et = short(i['addr'].get('type', '')).lstrip('*').split('.')[-1]
+                    if et in tset and i['addr'].get('k') != 'reg':
+                        for f in fields:
+                            if f.startswith(et + '.'): bad[f].append('%s: whole-struct store at %s' % (sn, i.get('pos')))
+                if i['op'] == 'DebugRef': continue
+                if i['op'] == 'UnOp' and i.get('unop') == '*': continue
+                for r in regs({k: v for k, v in i.items() if k != 'name'}, []):
+                    if r in owned_regs:
+                        if i['op'] == 'Store' and i['addr'].get('name') != r: continue   # the loaded address is not what is stored to
+                        # fields of an object allocated in this very function (composite literal, local variable) are not a published poller's
+                        d = [j for j in ins_all if j.get('name') == r][0]['x']
+                        while d.get('k') == 'reg':
+                            dd = [j for j in ins_all if j.get('name') == d['name']]
+                            if dd and dd[0]['op'] in ('FieldAddr',): d = dd[0]['x']
+                            else: break
+                        dd = [j for j in ins_all if d.get('k') == 'reg' and j.get('name') == d['name']]
+                        if dd and dd[0]['op'] == 'Alloc': continue
+                        bad[owned_regs[r]].append('%s: %s of &%s at %s' % (sn, i['op'], owned_regs[r], i.get('pos')))
+        pass
+    for props, tf, fnb, via, makers, src in cs.binds:
+        tn, fnm = tf.rsplit('.', 1)
+        bad = []
+        nstores = 0
+        for name, fn in prog.funcs.items():
+            sn = ir_short(prog, name)
+            if not fn.blocks: continue
+            ins_all = [i for b in fn.blocks for i in b['instrs']]
+            byname = {i['name']: i for i in ins_all if i.get('name')}
+            for i in ins_all:
+                if i['op'] == 'Alloc' and short(i.get('elem', '')) in (tn, 'netpoll.' + tn) and sn not in makers:
+                    bad.append('%s: allocates a %s at %s' % (sn, tn, i.get('pos')))
+                if i['op'] == 'FieldAddr' and short(i['struct']).split('.')[-1] == tn and i['field'] == fnm:
+                    for j in ins_all:
+                        if j['op'] in ('DebugRef',) or (j['op'] == 'UnOp' and j.get('unop') == '*'): continue
+                        if i['name'] not in regs({k: v for k, v in j.items() if k != 'name'}, []): continue
+                        ok = False
+                        if j['op'] == 'Store' and j['addr'].get('name') == i['name'] and sn in makers:
+                            v = byname.get(j['val'].get('name'))
+                            if v and v['op'] == 'MakeClosure' and ir_short(prog, v['fn']['name'] if isinstance(v['fn'], dict) else v['fn']) == fnb + '$bound' and len(v['bindings']) == 1:
+                                b0 = v['bindings'][0]
+                                if via:
+                                    bb = byname.get(b0.get('name'))
+                                    ok = bool(bb and bb['op'] == 'FieldAddr' and bb['field'] == via and bb['x'] == i['x'])
+                                else:
+                                    ok = b0 == i['x']
+                            nstores += 1
+                        if not ok: bad.append('%s: %s of &%s at %s' % (sn, j['op'], tf, j.get('pos')))
+        if nstores == 0: bad.append('no store binds the field')
+        nm = '@owned/bind/%s' % tf
+        out['obls'][nm] = {'status': 'discharged' if not bad else 'refuted', 'kind': 'owned', 'instances': 1, 'time_s': 0.0, 'backends': ['ssa-scan'],
+                           'text': 'field %s always holds %s bound to its own struct; %s values are made only by %s (%s)' % (tf, fnb, tn, ', '.join(makers), '; '.join(bad[:5])), 'where': src, 'models': [], 'traces': [], 'results': ['unsat' if not bad else 'sat']}
+    for (props, fields, funcs, src), bad in zip(cs.owned, allbad):
+        for f in fields:
+            nm = '@owned/static/%s' % f
+            out['obls'][nm] = {'status': 'discharged' if not bad[f] else 'refuted', 'kind': 'owned', 'instances': 1, 'time_s': 0.0, 'backends': ['ssa-scan'],
+                               'text': 'field %s is written only by %s (%s)' % (f, ', '.join(funcs), '; '.join(bad[f][:5])), 'where': src, 'models': [], 'traces': [], 'results': ['unsat' if not bad[f] else 'sat']}
+    return out
+
+
 def run_function(name):
     """worker: verify one function; returns plain data"""
     from verify import Verifier
     prog, cs, opts = _G['prog'], _G['cs'], _G['opts']
+    if name == '@owned': return owned_scan(prog, cs)
     v = Verifier(prog, cs, dict(opts))
     t0 = time.time()
     out = {'fn': name, 'status': 'ok', 'obls': {}, 'assumptions': [], 'inlined': [], 'paths': 0, 'gen_s': 0, 'solve_s': 0, 'error': None}
@@ -87,6 +175,7 @@ def main():
     prog, cs = load_all(repo)
     load_s = time.time() - t0
     fns = sorted(n for n, c in cs.funcs.items() if c.kind == 'func' and pid in c.properties and not c.trusted)
+    if any(pid in o[0] for o in cs.owned) or any(pid in o[0] for o in cs.binds): fns.append('@owned')
     if only: fns = [f for f in fns if only in f]
     trusted = sorted(n for n, c in cs.funcs.items() if c.kind == 'func' and c.trusted)
     externs = sorted(n for n, c in cs.funcs.items() if c.kind in ('extern', 'functype', 'iface'))
